@@ -59,6 +59,9 @@ struct ThreadDriver : vrt::Driver {
     bool freed = vrt::IsFreed(obj);
     vrt::Log("{\"e\":\"pt\",\"t\":%d,\"name\":\"%s\",\"obj\":\"%s\",\"freed\":%d}", t, name, vrt::LocName(obj).c_str(), freed);
     vrt::YieldPoint();
+    // the quantum after the point starts here: gives the steps that follow a hook (heartbeat test of the slot scan,
+    // re-binding, dereference of a list node, delete of a retired node) an exact position in the trace
+    vrt::Log("{\"e\":\"ptr\",\"t\":%d,\"name\":\"%s\"}", t, name);
     if (std::string(name) == "epoch.walk.hop" && vrt::IsFreed(obj)) {
       vrt::Log("{\"e\":\"uaf\",\"t\":%d,\"loc\":\"%s\",\"site\":\"epoch.walk.hop\"}", t, vrt::LocName(obj).c_str());
     }
@@ -195,6 +198,14 @@ struct ThreadDriver : vrt::Driver {
         } else {
           vrt::Log("{\"e\":\"relist\",\"t\":%d,\"list\":%s}", t, ListJson(*list[t]).c_str());
         }
+      }
+    } else if (k == "MV") {
+      // a live guard moved into a new object and move-assigned back: it must keep protecting its epoch
+      if (guard[t].has_value()) {
+        EpochGuard tmp{std::move(*guard[t])};
+        vrt::YieldPoint();
+        *guard[t] = std::move(tmp);
+        vrt::Log("{\"e\":\"gmove\",\"t\":%d,\"ep\":%ld}", t, static_cast<long>(guard[t]->GetProtectedEpoch()));
       }
     } else if (k == "GR") {
       // release idiom: overwrite the live guard by move assignment from an empty one
